@@ -70,6 +70,13 @@ CHECKS = {
         design_ref="DESIGN.md §4 C04",
         note="Bounded time is a CPU budget two orders of magnitude above the measured cost; wall-clock watchdogs only yield inconclusive.",
     ),
+    "C11": dict(
+        technique="runtime invariant monitor at the layout-stage hooks (H-stage): AST equality of every stage call's input and output inside real pipeline runs and on direct calls, with the in-line expandtabs stage bracketed by the API input and the first hooked stage",
+        category="exploration",
+        text="A literal-torture generator (16 contents with tabs, blank-line runs, trailing blanks, long lines, '#', odd inner indentation x 6 prefixes x 4 quote styles x 8 statement contexts = ~2.2k sources, 900 sampled in quick), 28 layout oddities, the construct zoo, repository examples and standard-library files run through format_code with line lengths 60/79/100/200; ~34k stage calls per quick run are compared (tree of output == tree of input, doc-string whitespace normalised; for the final whitespace-diff minimisation tree(result) == tree(new)).",
+        design_ref="DESIGN.md §4 C11",
+        note="Tolerated: whitespace inside bare string statements (doc-strings to black) and the AnnAssign.simple flag black changes by dropping redundant parentheses.",
+    ),
 }
 
 NOT_YET = {}
